@@ -1,1 +1,130 @@
-From InvokeVerif Require Import Corr.C06Corr.
+(** C06 -- A config behaves like a nested dict under any history of edits and
+    reloads.  Statements only; proofs are in Proofs/C06_shapes.v, C06_track.v,
+    C06_refine.v, C06_witness.v.
+
+    The full statement ("the model's trace of EVERY history is accepted by the
+    executable specification") is FALSE of the faithful model: three independent
+    refutations below (F-C06a dict write, F-C06e stale held proxy, F-C06b proxy
+    held across a deletion).  What is proved for all histories is the partial
+    form under a boolean guard; what the guard leaves out is listed there and is
+    covered by the bounded sweep (a test) and by the correspondence search. *)
+From InvokeVerif Require Import Common.Tree Common.StrUtil Model.MergeModel Model.ConfigModel
+     Spec.C03Spec Spec.C06Spec Proofs.C03_merge Proofs.C06_shapes Proofs.C06_track Proofs.C06_refine
+     Proofs.C06_witness.
+
+(** Representation lemma behind everything: a leaf written at a path where the
+    schema has a leaf, with nothing above it marked deleted, turns "journal J"
+    into "journal J ++ [write]" -- for every base the lower levels may later be
+    reloaded to. *)
+Theorem C06_write_is_journalled : forall S M D J kp k x y,
+  inv S M D J -> shape_at (kp ++ [k]) S = Some (SLeaf y) -> clear_above D (kp ++ [k]) ->
+  inv S (mod_set M kp k (Leaf x)) (excise D (kp ++ [k])) (J ++ [JSet (kp ++ [k]) (Leaf x)]).
+Proof. exact inv_write. Qed.
+
+Theorem C06_delete_is_journalled : forall S M D J p,
+  inv S M D J -> p <> [] -> clear_above D p ->
+  inv S M (set_path D p mark) (J ++ [JDel p]).
+Proof. exact inv_delete. Qed.
+
+(** Guard ([good0 S c0] and [op_ok S] on every operation): [S] is a schema (a
+    tree saying which paths are sections and which are leaves) to which all
+    level contents conform; the history starts from a merged state without
+    edits; every operation navigates from the root and is a read (get, contains,
+    len, keys), a deletion (del, pop, popitem), a write of a LEAF where the schema
+    has a leaf (set, setdefault with or without default), or a reload of the
+    defaults / overrides / collection level with conforming data.
+    MISSING w.r.t. the full statement: dict-valued writes (false: F-C06a), held
+    proxies (false: F-C06e, F-C06b), clear/update (successive del/set; swept
+    below), load_shell_env / file levels / clone inside the history (swept below
+    and exercised by the correspondence), comparison of returned values (the
+    theorem is about the view; outcomes are covered by "no internal error" and by
+    the sweep), and the base is the model's own merge of the lower levels (the
+    spec's [union_of]: tied by C03_highest_level_wins up to key order only).
+    Under the guard the view after the history shows, at every path, exactly
+    what the journal of successful edits replayed over the merge of the CURRENT
+    lower levels shows ([sim]: same leaf value / section / nothing at every
+    path, i.e. dict equality up to key order, empty sections included). *)
+Theorem C06_refines_nested_dict_partial : forall S fs c0 ops,
+  is_node S = true -> good0 S c0 = true -> forallb (op_ok S) ops = true ->
+  let c := fst (run fs c0 ops) in
+  exists X, merge_all (lower c) [] = Ok X /\ wf (Node X) = true /\
+            sim (Node (c_cache c)) (Node (replay (Node X) (journal fs c0 ops))).
+Proof. exact refines_nested_dict. Qed.
+
+(** Under the same guard no operation fails with anything but KeyError /
+    AttributeError for a missing key (or the TypeError of walking through a leaf,
+    which a nested dict raises too): no AmbiguousMergeError, no error from
+    [excise]/[obliterate], ever. *)
+Theorem C06_no_internal_error_partial : forall S fs c0 ops,
+  is_node S = true -> good0 S c0 = true -> forallb (op_ok S) ops = true ->
+  Forall (fun ov => forall e, fst ov = OErr e -> e = EKey \/ e = EAttr \/ e = EType)
+         (snd (run fs c0 ops)).
+Proof. exact no_internal_error. Qed.
+
+(** "A written value is read back", "a deleted key stays absent" on any state
+    reached under the guard ([good]). *)
+Theorem C06_written_leaf_reads_back_partial : forall S fs c J fl kp k x d0,
+  is_node S = true -> good S c J -> leaf_in S (kp ++ [k]) = true ->
+  nav fl (c_cache c) kp = Ok d0 ->
+  shape_at (kp ++ [k]) (Node (c_cache (fst (step fs c (SetV fl kp k (Leaf x)))))) = Some (SLeaf x).
+Proof. exact written_leaf_reads_back. Qed.
+
+Theorem C06_deleted_key_is_absent_partial : forall S fs c J fl kp k d0 t,
+  is_node S = true -> good S c J -> nav fl (c_cache c) kp = Ok d0 -> get k d0 = Some t ->
+  forall r, shape_at ((kp ++ [k]) ++ r) (Node (c_cache (fst (step fs c (Del fl kp k))))) = None.
+Proof. exact deleted_key_is_absent. Qed.
+
+(** The state invariant is kept by every guarded operation (the induction step). *)
+Theorem C06_step_keeps_invariant_partial : forall S fs c J o,
+  is_node S = true -> good S c J -> op_ok S o = true ->
+  good S (fst (step fs c o)) (J ++ events_of c o) /\ benign (snd (step fs c o)).
+Proof. exact step_good. Qed.
+
+(** Refutations of the full statement on the faithful model (the same
+    histories are the witnesses of the known findings, replayed on the real code
+    on every run). *)
+Theorem C06_refuted_dict_write :
+  exists i ops, model_meets_spec [] i ops = false /\
+                ops = [Plain (SetV Item [] "a" (Node [("x", Leaf (VInt 1))]))].
+Proof. eexists; eexists; split; [exact refuted_dict_write | reflexivity]. Qed.
+
+Theorem C06_refuted_stale_proxy :
+  exists i ops, model_meets_spec [] i ops = false /\
+                ops = [Hold 0 Item ["a"]; Plain (SetV Item ["a"] "y" (Leaf (VInt 2)));
+                       Plain (SetV Item ["a"] "z" (Leaf (VInt 3))); Via 0 (Get Item [] "z")].
+Proof. eexists; eexists; split; [exact refuted_stale_proxy | reflexivity]. Qed.
+
+Theorem C06_refuted_proxy_across_deletion :
+  exists i ops, model_meets_spec [] i ops = false /\
+                ops = [Hold 0 Item ["a"]; Plain (SetV Item [] "k" (Leaf (VInt 1)));
+                       Plain (Del Item ["a"] "b"); Via 0 (SetV Item ["b"] "x" (Leaf (VInt 2)))].
+Proof. eexists; eexists; split; [exact (proj1 refuted_proxy_across_deletion) | reflexivity]. Qed.
+
+(** A test, not the property: the model's trace of every history of at most 3
+    steps from a 22-letter alphabet (leaf writes at two depths, deletions, pop
+    with and without default, popitem, clear, setdefault with and without
+    default, update, reads, three reloads, clone, fetching a nested proxy and
+    writing through it) is accepted by the FULL executable specification --
+    outcomes, views compared as dicts, base = deep union of the levels. *)
+Theorem C06_model_meets_spec_bounded_3 :
+  forallb (model_meets_spec [] sweep_init) (histories 3) = true.
+Proof. exact model_meets_spec_bounded_3. Qed.
+
+(** Non-vacuity: a concrete schema, start state and guarded history (write,
+    deletion one level up, reload that re-supplies the deleted section, write
+    again) with the journal the theorem talks about. *)
+Example C06_example_guarded_history :
+  let S := Node [("a", Node [("x", Leaf VNone); ("y", Leaf VNone)]); ("k", Leaf VNone)] in
+  let d0 := Node [("a", Node [("x", Leaf (VInt 0)); ("y", Leaf (VInt 0))]); ("k", Leaf (VInt 1))] in
+  let ops := [SetV Item ["a"] "x" (Leaf (VInt 1)); Del Attr ["a"] "y"; Pop Item [] "k" None;
+              LoadDefaults (Node [("a", Node [("y", Leaf (VInt 5))]); ("k", Leaf (VInt 2))]);
+              SetV Attr [] "k" (Leaf (VInt 3))] in
+  match start [] (mkInit d0 (Node []) None None false) with
+  | Ok c0 =>
+      good0 S c0 = true /\ forallb (op_ok S) ops = true /\
+      journal [] c0 ops = [JSet ["a"; "x"] (Leaf (VInt 1)); JDel ["a"; "y"]; JDel ["k"];
+                           JSet ["k"] (Leaf (VInt 3))] /\
+      c_cache (fst (run [] c0 ops)) = [("a", Node [("x", Leaf (VInt 1))]); ("k", Leaf (VInt 3))]
+  | Err _ => False
+  end.
+Proof. vm_compute. repeat split; reflexivity. Qed.
